@@ -1,3 +1,4 @@
+import RossModel.Lemmas.SourceTie
 import RossModel.Lemmas.Protocol
 /-!
 # C15 — A tick delivers each received packet to exactly the right handlers, once
@@ -39,5 +40,9 @@ theorem C15_tick_spec (s : Proto) :
     | .error .noPacket :: q => s.tick = ({ s with rxQueue := q }, .ok ())
     | .error (.other t) :: q => s.tick = ({ s with rxQueue := q }, .error (.interface t)) :=
   Ross.tick_spec s
+
+/-! ### tie to the source text (constants regenerated from /repo by `bin/extract` on every run) -/
+/-- `BROADCAST_ADDRESS` in `src/protocol.rs` is the model's -/
+theorem C15_src_broadcast : SrcTie.broadcastOk = true := by decide
 
 end Ross.Props
